@@ -47,7 +47,17 @@ ENGS = {
     "dict": build(SDL, "c16_dict", custom_default_resolver=_res, query_cache_decorator=DICT),
     "none": build(SDL, "c16_none", custom_default_resolver=_res, query_cache_decorator=None),
 }
-FRESH = build(SDL, "c16_fresh", custom_default_resolver=_res, query_cache_decorator=None)
+def _uncached_untraced(fn):
+    """the reference engine never caches; parsing+validating the (concrete) pool text runs outside tracing — no symbolic value enters it"""
+    from crosshair.tracers import NoTracing
+
+    def w(q, s):
+        with NoTracing():
+            return fn(q, s)
+    return w
+
+
+FRESH = build(SDL, "c16_fresh", custom_default_resolver=_res, query_cache_decorator=_uncached_untraced)
 HANDLES.append(ENGS["default"]._cached_parse_and_validate_query)       # reset handle only (per-path determinism)
 
 POOL = [
